@@ -125,7 +125,7 @@ def decide_freq(idx, seed0, tier):
            "sample": {"p_loose": pl, "tiles": tiles, "observed_frequency": freq, "z": z, "band": "6 sigma = %.5f" % (6 * sigma)}}
     if abs(z) > 6:
         res.update(verdict="violated", what="loose-tile frequency %.5f outside the 6-sigma band around %g (z=%.1f, %d tiles)" % (freq, pl, z, tiles),
-                   case={"freq": pl, "idx": idx})
+                   case={"freq": pl, "idx": idx, "seed": seed0, "tier": tier})
     return res
 
 
@@ -273,7 +273,9 @@ def replay(case):
         if rg.gen_rnd_board(*a) != b1:
             pr.append({"problem": "not reproducible"})
         return {"verdict": "violated" if pr else "held", "what": pr[0]["problem"] if pr else None, "case": case}
-    return {"verdict": "inconclusive", "what": "statistical case: rerun the check"}
+    if "freq" in case:
+        return decide_freq(case["idx"], case.get("seed", 0), case.get("tier", "quick"))
+    return {"verdict": "inconclusive", "what": "unknown case"}
 
 
 if __name__ == "__main__":
